@@ -59,7 +59,9 @@ int main(int argc, char** argv) {
             if (sscanf(line + off, "%d %d %u %31s %ld %u %ld %ld%n", &level, &chk, &maxFrame, kind, &size, &seed, &chunk, &outcap, &k) < 8) continue;
             p = line + off + k; { long e; int kk; while (ne < 256 && sscanf(p, " %ld%n", &e, &kk) == 1) { ends[ne++] = e; p += kk; } }
             if ((size_t)size > MAXN) size = MAXN; srcSize = (size_t)size; vgen(kind, srcSize, seed, src); archSize = 0;
-            zcs = ZSTD_seekable_createCStream(); r = ZSTD_seekable_initCStream(zcs, level, chk, maxFrame);
+            /* one compressor object for all the archives of a script (re-initialised each time, as the header allows), unless SEEKDRV_FRESH is set */
+            { static ZSTD_seekable_CStream* shared = NULL; if (getenv("SEEKDRV_FRESH")) zcs = ZSTD_seekable_createCStream(); else { if (!shared) shared = ZSTD_seekable_createCStream(); zcs = shared; } }
+            r = ZSTD_seekable_initCStream(zcs, level, chk, maxFrame);
             while (!ZSTD_isError(r) && pos < srcSize && ++guard < 10000000) { ZSTD_inBuffer in; ZSTD_outBuffer ob; size_t upto = pos + (size_t)chunk > srcSize ? srcSize : pos + (size_t)chunk;
                 if (ei < ne && (size_t)ends[ei] >= pos && (size_t)ends[ei] < upto) upto = (size_t)ends[ei] > pos ? (size_t)ends[ei] : upto;
                 in.src = src; in.size = upto; in.pos = pos; ob.dst = arch + archSize; ob.size = (size_t)outcap; ob.pos = 0;
@@ -67,7 +69,7 @@ int main(int argc, char** argv) {
                 while (!ZSTD_isError(r) && ei < ne && (size_t)ends[ei] == pos) { size_t rr; do { ob.dst = arch + archSize; ob.size = (size_t)outcap; ob.pos = 0; rr = ZSTD_seekable_endFrame(zcs, &ob); archSize += ob.pos; } while (!ZSTD_isError(rr) && rr != 0 && ++guard < 10000000); if (ZSTD_isError(rr)) r = rr; ei++; nEndCalls++; } }
             while (!ZSTD_isError(r) && ++guard < 10000000) { ZSTD_outBuffer ob; ob.dst = arch + archSize; ob.size = (size_t)outcap; ob.pos = 0; r = ZSTD_seekable_endStream(zcs, &ob); archSize += ob.pos; if (r == 0) break; }
             fprintf(T, "{\"e\":\"arch\",\"ok\":%s,\"err\":\"%s\",\"size\":%zu,\"csize\":%zu,\"maxFrame\":%u,\"checksum\":%d,\"endCalls\":%d}\n", ZSTD_isError(r) ? "false" : "true", ZSTD_isError(r) ? ZSTD_getErrorName(r) : "", srcSize, archSize, maxFrame, chk, nEndCalls);
-            ZSTD_seekable_freeCStream(zcs);
+            if (getenv("SEEKDRV_FRESH")) ZSTD_seekable_freeCStream(zcs);
             { ZSTD_seekable* z2 = ZSTD_seekable_create(); nbounds = 0; if (!ZSTD_isError(ZSTD_seekable_initBuff(z2, arch, archSize))) { unsigned i, n = ZSTD_seekable_getNumFrames(z2); for (i = 0; i <= n && i < (1 << 16) - 1; i++) bounds[nbounds++] = i < n ? ZSTD_seekable_getFrameDecompressedOffset(z2, i) : srcSize; } ZSTD_seekable_free(z2); }
         } else if (!strcmp(cmd, "WALK")) {
             /* independent parse: zstd frames until the skippable seek-table frame; then the table as the format document lays it out */
